@@ -632,7 +632,10 @@ class Extractor:
         for t in toks[fp.params_open + 1:fp.params_close] + [rsx.Tok('punct', ',', 0)]:
             if t.kind == 'punct' and t.text in rsx.OPEN: depth += 1
             elif t.kind == 'punct' and t.text in rsx.CLOSE: depth -= 1
-            if (t.kind == 'punct' and t.text == ',' and depth == 0) or (t.text in ('<',) and False):
+            elif t.kind == 'punct' and t.text == '<': depth += 1          # generic arguments of a parameter type (no comparisons occur in a parameter list)
+            elif t.kind == 'punct' and t.text == '>': depth -= 1
+            elif t.kind == 'punct' and t.text == '>>': depth -= 2
+            if (t.kind == 'punct' and t.text == ',' and depth == 0):
                 txt = ''.join(x.text for x in cur).strip(); cur = []
                 if not txt: continue
                 flat = re.sub(r'\s+', ' ', txt)
